@@ -1681,7 +1681,7 @@ type engine struct{}
 
 func (engine) ID() string { return "C17" }
 func (engine) CoqHeader() string {
-	return "From Eino Require Import Base.Util Model.Tools Corr.C17.\n"
+	return "From Eino Require Import Base.Util Model.Tools Model.ToolsPar Corr.C17.\n"
 }
 func (engine) CoqCaseType() string { return "ccase" }
 
@@ -1724,7 +1724,7 @@ var sticky = map[string]lib.Result{}
 func (e engine) Run(ci any) lib.Result {
 	c := ci.(*Case)
 	if os.Getenv(childEnv) != "" {
-		return streamProbes(c)
+		return childProbes(c)
 	}
 	key := js(c)
 	if prev, ok := sticky[key]; ok {
@@ -1759,7 +1759,6 @@ func (c *Case) goroutinePanic() bool {
 	return false
 }
 
-const panicProbes = 12
 
 // the same case under another schedule: the panicking executions finish last (the caller is
 // already waiting for the goroutines when they panic), everything else answers at once
@@ -1787,38 +1786,15 @@ func (engine) runCase(c *Case) lib.Result {
 	sendable := true
 	cur = &interner{names: map[string]string{}}
 	defer func() { cur = nil }()
-	// whether the panic error of a goroutine task is in its slot when the scan reads it depends on the
-	// schedule: before anything is streamed (a lost panic shows as an answer in the value-returning
-	// call, while the streamed form would dereference the missing stream) the value-returning call is
-	// repeated, half of the time under the schedule in which the panicking executions finish last;
-	// likewise for the peer call of the shared-node runs
-	for _, pc := range []*Case{c, c.peerCase()} {
-		if res.Oracle != "" || !pc.goroutinePanic() {
-			continue
-		}
-		late := pc.panicLast()
-		for i := 0; i < panicProbes && res.Oracle == ""; i++ {
-			host := []string{"standalone", "graph"}[i%2]
-			at("invoke(repeated)/" + host)
-			rcase, sched := pc, "the case's own delays"
-			if i%4 >= 2 {
-				rcase, sched = late, "panicking executions delayed so that they finish last"
-			}
-			o, _, _ := runOne(rcase, "invoke", host)
-			if w, sig := pc.oracle(&o); w != "" {
-				o.Mode = "invoke(repeated)"
-				obs = append(obs, o)
-				which := ""
-				if pc != c {
-					which = " of the same ids on the calls in reverse order (the peer call of the shared-node runs)"
-				}
-				res.Oracle, res.Sig = fmt.Sprintf("repetition %d%s, schedule: %s: %s", i, which, sched, w), sig
-			}
-		}
-	}
-	if res.Oracle == "" && (c.goroutinePanic() || c.peerCase().goroutinePanic()) {
-		at("stream(repeated, in a child process)")
-		if w, sig, o := isolatedStreamProbes(c); w != "" {
+	// whether the panic error of a goroutine task is in its cell when the scan reads it depends on the
+	// schedule, and a lost failure can take the whole process down (the streamed form dereferences the
+	// missing stream; an unrecovered panic of a goroutine): such a case is first put, in a child
+	// process, through repetitions of the value-returning and of the streamed call, half of them
+	// under the schedule in which the panicking executions finish last; likewise its peer call of
+	// the shared-node runs
+	if c.goroutinePanic() || c.peerCase().goroutinePanic() {
+		at("repeated calls in a child process")
+		if w, sig, o := isolatedProbes(c); w != "" {
 			res.Oracle, res.Sig = w, sig
 			if o != nil {
 				obs = append(obs, o...)
@@ -2058,38 +2034,45 @@ func (engine) Shrink(ci any, stillFails func(any) bool) any {
 	return &cur
 }
 
-// ---------------------------------------------------------------- streamed form, isolated
+// ---------------------------------------------------------------- repeated calls, isolated
 //
 // When the failure of a goroutine task gets lost, the streamed form has no stream for that call
 // and the first read takes the whole process down (on a goroutine of the implementation, which
-// nothing can guard). The streamed form of a case with such a task is therefore first exercised
-// in a child process (this binary, --replay on the case, childEnv set): the child repeats the
-// streamed call under the case's own delays and under the schedule in which the panicking
-// executions finish last; the parent reads the child's verdict, or its crash.
+// nothing can guard); so does a panic of a goroutine task that is not recovered. A case with a
+// panicking goroutine task is therefore first exercised in a child process (this binary,
+// --replay on the case, childEnv set): the child repeats the value-returning and the streamed
+// call under the case's own delays and under the schedule in which the panicking executions
+// finish last; the parent reads the child's verdict, or its crash.
 const childEnv = "VERIF_C17_STREAM_CHILD"
-const streamProbeN = 12
+const probeN = 12
 
 // child side
-func streamProbes(c *Case) lib.Result {
+func childProbes(c *Case) lib.Result {
 	res := lib.Result{}
 	var obs []RunObs
-	for _, pc := range []*Case{c, c.peerCase()} {
-		if !pc.goroutinePanic() {
-			continue
-		}
-		late := pc.panicLast()
-		for i := 0; i < streamProbeN && res.Oracle == ""; i++ {
-			host := []string{"standalone", "graph"}[i%2]
-			rcase, sched := pc, "the case's own delays"
-			if i%4 >= 2 {
-				rcase, sched = late, "panicking executions delayed so that they finish last"
+	for _, mode := range []string{"invoke", "stream"} {
+		for _, pc := range []*Case{c, c.peerCase()} {
+			if !pc.goroutinePanic() {
+				continue
 			}
-			fmt.Fprintf(os.Stderr, "C17-CHILD stream/%s repetition %d (%s) peer=%v\n", host, i, sched, pc != c)
-			o, _, _ := runOne(rcase, "stream", host)
-			if w, sig := pc.oracle(&o); w != "" {
-				o.Mode = "stream(repeated)"
-				obs = append(obs, o)
-				res.Oracle, res.Sig = fmt.Sprintf("repetition %d, schedule: %s: %s", i, sched, w), sig
+			late := pc.panicLast()
+			for i := 0; i < probeN && res.Oracle == ""; i++ {
+				host := []string{"standalone", "graph"}[i%2]
+				rcase, sched := pc, "the case's own delays"
+				if i%4 >= 2 {
+					rcase, sched = late, "panicking executions delayed so that they finish last"
+				}
+				which := ""
+				if pc != c {
+					which = " of the same ids on the calls in reverse order (the peer call of the shared-node runs)"
+				}
+				fmt.Fprintf(os.Stderr, "C17-CHILD %s/%s repetition %d%s (%s)\n", mode, host, i, which, sched)
+				o, _, _ := runOne(rcase, mode, host)
+				if w, sig := pc.oracle(&o); w != "" {
+					o.Mode = mode + "(repeated)"
+					obs = append(obs, o)
+					res.Oracle, res.Sig = fmt.Sprintf("repetition %d%s, schedule: %s: %s", i, which, sched, w), sig
+				}
 			}
 		}
 	}
@@ -2098,7 +2081,7 @@ func streamProbes(c *Case) lib.Result {
 }
 
 // parent side: ("", "", nil) if the child saw nothing
-func isolatedStreamProbes(c *Case) (string, string, []RunObs) {
+func isolatedProbes(c *Case) (string, string, []RunObs) {
 	dir, err := os.MkdirTemp("", "c17-child-")
 	if err != nil {
 		return "", "", nil
@@ -2142,7 +2125,7 @@ func isolatedStreamProbes(c *Case) (string, string, []RunObs) {
 		if i := strings.Index(log, m); i >= 0 {
 			where = short(strings.Join(strings.Fields(log[i:]), " "))
 		}
-		return "the streamed form of this case killed the process (observed in a child process, during " + last + "): a failure of a tool call got lost and the call went on without it: " + where, "process-crash", nil
+		return "this case killed the process (observed in a child process, during " + last + "): a panic of a tool call was not contained, or a failure got lost and the call went on without it: " + where, "process-crash", nil
 	}
 	raw, err := os.ReadFile(filepath.Join(dir, "obs.jsonl"))
 	if err != nil {
@@ -2156,7 +2139,7 @@ func isolatedStreamProbes(c *Case) (string, string, []RunObs) {
 	if json.Unmarshal([]byte(strings.SplitN(string(raw), "\n", 2)[0]), &rec) != nil || rec.Oracle == "" {
 		return "", "", nil
 	}
-	return "streamed form, in a child process: " + rec.Oracle, rec.Sig, rec.Obs
+	return "in a child process: " + rec.Oracle, rec.Sig, rec.Obs
 }
 
 var crashRe = regexp.MustCompile(`(?m)^(panic:|fatal error:).*$`)
